@@ -283,22 +283,52 @@ func (p *c14Party) genShare(in *c14Inst, round int, r1agg any) any {
 	r := p.run
 	pr := p.protos
 	crp := &p.crps[in.id]
+	// the receiver of a share is newly allocated or a recycled one that still holds an older share
+	dirty := r.ctx.Ch.Chance("recycled-share-receiver", 1, 3)
+	var dg *core.Xoshiro
+	if dirty {
+		dg = core.NewXoshiro(uint64(r.ctx.Ch.Draw("recycled-content", 1<<16)))
+		r.ctx.Count("fault.recycled-share-receiver", 1)
+	}
+	rqp := *r.params.RingQP()
+	fillG := func(gc *rlwe.GadgetCiphertext) {
+		if !dirty {
+			return
+		}
+		lr := rqp.AtLevel(gc.LevelQ(), gc.LevelP())
+		for i := range gc.Value {
+			for j := range gc.Value[i] {
+				for k := range gc.Value[i][j] {
+					catalog.FillPolyQP(lr, gc.Value[i][j][k], dg)
+				}
+			}
+		}
+	}
 	switch in.kind {
 	case kCPK:
 		s := pr.cpk.AllocateShare()
+		if dirty {
+			catalog.FillPolyQP(rqp, s.Value, dg)
+		}
 		pr.cpk.GenShare(p.sk, crp.cpk, &s)
 		return &s
 	case kRKG:
 		eph, r1, r2 := pr.rkg.AllocateShare(in.ep)
 		if round == 0 {
+			fillG(&r1.GadgetCiphertext)
 			pr.rkg.GenShareRoundOne(p.sk, crp.rkg, eph, &r1)
 			p.eph[in.id] = eph
 			return &r1
 		}
+		fillG(&r2.GadgetCiphertext)
 		pr.rkg.GenShareRoundTwo(p.eph[in.id], p.sk, *r1agg.(*multiparty.RelinearizationKeyGenShare), &r2)
 		return &r2
 	case kGKG:
 		s := pr.gkg.AllocateShare(in.ep)
+		fillG(&s.GadgetCiphertext)
+		if dirty {
+			s.GaloisElement = 12345
+		}
 		if err := pr.gkg.GenShare(p.sk, in.galEl, crp.gkg, &s); err != nil {
 			r.fail("protocol", "gkg.GenShare|error", "GaloisKeyGenProtocol.GenShare failed on valid inputs (%s): %v", in, err)
 			return nil
@@ -306,6 +336,7 @@ func (p *c14Party) genShare(in *c14Inst, round int, r1agg any) any {
 		return &s
 	default:
 		s := pr.evk.AllocateShare(in.ep)
+		fillG(&s.GadgetCiphertext)
 		if err := pr.evk.GenShare(p.sk, p.sk2, crp.evk, &s); err != nil {
 			r.fail("protocol", "evk.GenShare|error", "EvaluationKeyGenProtocol.GenShare failed on valid inputs (%s): %v", in, err)
 			return nil
